@@ -514,4 +514,92 @@ Section WithV.
         * apply (copy_sample_vector_canon h hr c vs idx r nS nT nV Hw Hwr Htr Hsd Ed Edr Hmono Hnt Hok Hne); try assumption.
           rewrite Ed. exact Hcan.
   Qed.
+
+  (** * Whole extensions *)
+
+  (** every key sits at the canonical class of what it denotes (keys that are None everywhere may be present,
+      necessarily as a global constant) *)
+  Definition canonical_mod_none (e : ext V) : Prop :=
+    valid e /\
+    forall k c vs, In (k, (c, vs)) (entries e) ->
+      canon_class (shape (hdr_of e)) (dims (hdr_of e)) (den vnone e k) c.
+
+  Lemma canonical_canonical_mod_none e : canonical vnone e -> canonical_mod_none e.
+  Proof. intros [Hv H]. split; [exact Hv|]. intros k c vs Hin. apply (H k c vs Hin). Qed.
+
+  Lemma canon_class_ext sh d (f g : pos -> V) c :
+    (forall p, in_dims d p -> f p = g p) -> canon_class sh d f c -> canon_class sh d g c.
+  Proof.
+    intros E [H1 [H2 H3]]. split; [exact H1|]. split; [eapply representable_ext; eauto|].
+    intros c' Hc' Hr. apply H3; [exact Hc'|]. eapply representable_ext; [|exact Hr].
+    intros p Hp. symmetry. apply E. exact Hp.
+  Qed.
+
+  Lemma den_fden (e : ext V) k c vs p :
+    lookup_e e k = Some (c, vs) -> class_ok (shape (hdr_of e)) c = true ->
+    den vnone e k p = fden (dims (hdr_of e)) c vs p.
+  Proof. intros Hl Hc. unfold den. rewrite Hl, Hc. reflexivity. Qed.
+
+  Theorem subset_canonical_mod_none e dim idx r :
+    canonical_mod_none e -> idx < nth dim (shape (hdr_of e)) 0 ->
+    get_subset veqb vnone e dim idx = Ok r -> canonical_mod_none r.
+  Proof.
+    intros [Hv Hcan] Hidx H. pose proof Hv as [Hw [Hnd Hent]].
+    unfold get_subset in H. apply bind_ok in H as [hr [Hhr H]]. apply bind_ok in H as [u [_ H]].
+    apply bind_ok in H as [ents [Hents H]]. injection H as <-.
+    destruct (subset_frame _ hr dim Hw Hhr) as [Hwr _].
+    assert (Hndr : NoDup (map fst ents)).
+    { eapply map_keys_NoDup; [exact Hents | apply dedup_keys_NoDup]. }
+    assert (Hkey : forall k c vs, In (k, (c, vs)) ents -> kcanon hr (Some (c, vs))).
+    { intros k c vs Hin. destruct (map_keys_In _ _ _ _ _ Hents Hin) as [_ Hk].
+      destruct (lookup_e e k) as [[c0 vs0]|] eqn:El.
+      - pose proof (lookup_In _ _ _ El) as Hin0. destruct (Hent _ _ _ Hin0) as [Hc0 [Hs0 Hl0]].
+        apply (subset_k_canon (hdr_of e) hr dim idx c0 vs0 _ Hw Hhr Hidx); [split; [|split]; assumption | | exact Hk].
+        eapply canon_class_ext; [|apply (Hcan _ _ _ Hin0)].
+        intros p _. apply den_fden; assumption.
+      - unfold subset_k, visible in Hk. discriminate Hk. }
+    split.
+    - split; [exact Hwr|]. split; [exact Hndr|]. intros k c vs Hin. apply (Hkey k c vs Hin).
+    - intros k c vs Hin. cbn [hdr_of]. destruct (Hkey k c vs Hin) as [[Hc _] Hcc].
+      eapply canon_class_ext; [|exact Hcc]. intros p _. symmetry. apply den_fden; [|exact Hc].
+      apply In_lookup; [exact Hndr | exact Hin].
+  Qed.
 End WithV.
+
+(** * The literal [Spec.canonical] is not closed: a key that is None on the selected slice stays, as a
+      global constant None (value 0 plays None here) *)
+Definition ex_e : ext nat :=
+  mk_ext (mk_hdr [1; 1; 2; 2] (Some 2) ex_aff true false) [([107]%N, (GSlices, [0; 1; 0; 2]))].
+
+Lemma ex_e_canonical : canonical 0 ex_e.
+Proof.
+  assert (Hv : valid ex_e) by (apply validb_valid; vm_compute; reflexivity).
+  split; [exact Hv|]. intros k c vs [Hin|[]]. injection Hin as <- <- <-. split.
+  - split; [reflexivity|]. split.
+    + intros p q _ _ E. unfold den. cbn. cbn in E. rewrite E. reflexivity.
+    + intros c' Hc' Hr. destruct c'; try discriminate Hc'; cbn [pref_rank]; try lia; exfalso.
+      * specialize (Hr (0, 0, 0) (1, 0, 0) ltac:(cbn; lia) ltac:(cbn; lia) eq_refl). vm_compute in Hr. discriminate Hr.
+      * specialize (Hr (1, 0, 0) (1, 1, 0) ltac:(cbn; lia) ltac:(cbn; lia) eq_refl). vm_compute in Hr. discriminate Hr.
+      * specialize (Hr (0, 0, 0) (1, 0, 0) ltac:(cbn; lia) ltac:(cbn; lia) eq_refl). vm_compute in Hr. discriminate Hr.
+  - exists (1, 0, 0). split; [cbn; lia|]. vm_compute. discriminate.
+Qed.
+
+Theorem subset_canonical_refuted :
+  exists (e r : ext nat) dim idx,
+    canonical 0 e /\ nondegenerate e /\ idx < nth dim (shape (hdr_of e)) 0 /\
+    get_subset Nat.eqb 0 e dim idx = Ok r /\ ~ canonical 0 r.
+Proof.
+  exists ex_e. eexists. exists 2, 0. split; [exact ex_e_canonical|]. split.
+  { apply nondegenerateb_nondegenerate; [apply validb_valid|]; vm_compute; reflexivity. }
+  split; [cbn; lia|]. split; [vm_compute; reflexivity|].
+  intros [_ H]. destruct (H _ _ _ (or_introl eq_refl)) as [_ [[[s t] v] [_ Hp]]]. apply Hp. reflexivity.
+Qed.
+
+(** non-vacuity of [subset_canonical_mod_none]: the same extension, split along time *)
+Example subset_canonical_mod_none_example :
+  exists r, get_subset Nat.eqb 0 ex_e 3 1 = Ok r /\ entries r = [([107]%N, (GSlices, [0; 2]))] /\
+            canonical_mod_none 0 ex_e /\ 1 < nth 3 (shape (hdr_of ex_e)) 0.
+Proof.
+  eexists. split; [vm_compute; reflexivity|]. split; [reflexivity|].
+  split; [apply canonical_canonical_mod_none, ex_e_canonical | cbn; lia].
+Qed.
